@@ -120,6 +120,13 @@ def build_matrix_inputs(cache_dir):
     for name, (SL, te, tr) in sets.items():
         inputs[name] = {"call": (lambda SL=SL, te=te, tr=tr: (lambda mp: SL.bilform_matrix(te, tr, use_mp=mp)))(),
                         "ref": ref(SL, te, tr), "shape": (len(te), len(tr))}
+    # the other documented call forms: one list (trial = test), no list (all leaves), keywords, tuples instead of lists
+    perm = e1[5:] + e1[:5][::-1]
+    rev = list(reversed(e1))
+    inputs["i8"] = {"call": lambda mp: SL1.bilform_matrix(perm, use_mp=mp), "ref": ref(SL1, perm, perm), "shape": (len(perm), len(perm))}
+    inputs["i9"] = {"call": lambda mp: SL3.bilform_matrix(use_mp=mp), "ref": ref(SL3, e3, e3), "shape": (len(e3), len(e3))}
+    inputs["i10"] = {"call": lambda mp: SL1.bilform_matrix(elems_trial=tuple(e1[:8]), elems_test=tuple(rev), use_mp=mp), "ref": ref(SL1, rev, e1[:8]),
+                     "shape": (len(rev), 8)}
     return inputs
 
 
@@ -292,6 +299,16 @@ def run(prop, tier, seed):
             runs.append(st)
             all_events += ev
             ctx.log("replay %s" % st)
+        mdir2 = os.path.join(tmp, "m2")
+        os.makedirs(mdir2)
+        mi2 = build_matrix_inputs(mdir2)
+        mi2["_dir"] = mdir2
+        names = ["i8", "i9", "i10"]
+        scripts = fixed_scripts(names, set(), al.KINDS[:2], workers)[:3] + behaviours(ctx, set(names), set(), workers, True, 3 if quick else 40, 40, seed + 9)
+        st, ev = execute(ctx, scripts, mi2, names, set(), True, rng, "matrix-call-forms")
+        runs.append(st)
+        all_events += ev
+        ctx.log("replay %s" % st)
         vdir = os.path.join(tmp, "v")
         os.makedirs(vdir)
         vi = build_vector_inputs(vdir)
